@@ -43,9 +43,12 @@ def layer_oracle(nodes, edges, arch_def, subj, objs, verb, imp, exc, anything=Fa
     return other and not any(access(M) for M in objs)
 
 
-def gen_case(rng):
+def gen_case(rng, forest=False):
     pool = rng.choice((rules.COLLISION_FREE, rules.ADVERSARIAL))
     nodes = rules.rand_tree(rng, pool, max_nodes=rng.choice([6, 9, 13]))
+    if forest:
+        # a second top-level tree (as an external library kept in the graph): its root is a listed module without any dot
+        nodes = sorted(set(nodes) | set(rules.rand_tree(rng, pool, max_nodes=4, root=rng.choice(["ext", "e", "rx"]))))
     edges = rules.rand_edges(rng, nodes, k_max=10)
     cand = [n for n in nodes if n != "r"]
     rng.shuffle(cand)
@@ -107,7 +110,7 @@ def _job(args):
     out = dict(n=0, nontrivial=0, stats={}, violations=[], disagreements=[], pairs=[], samples=[])
     done = 0
     while done < n:
-        c = gen_case(rng)
+        c = gen_case(rng, forest=(mode == "direct" and rng.random() < 0.35))
         if c is None:
             continue
         c["obj_as_str"] = rng.random() < 0.5
